@@ -1386,6 +1386,11 @@ func (fc *FnCtx) sourceOrdinal(a Anchor, kind string, instr ssa.Instruction) int
 					continue
 				}
 				pat = fc.srcText(x.Pos())
+			case *ssa.MakeChan:
+				if kind != "make" {
+					continue
+				}
+				pat = fc.srcText(x.Pos())
 			case *ssa.Next:
 				if kind != "next" {
 					continue
